@@ -44,7 +44,7 @@ def plan(tier, seed):
         shards.append({"part": "scan", "lo": lo, "hi": lo + 120, "bound": "scan-level monotonicity (second import statement added to a file)"})
     return {
         "shards": shards,
-        "require_nonzero": ["scan-monotonic", "duality", "negation", "decomposition", "alias", "monotonic", "negation:PASS/FAIL", "negation:FAIL/PASS", "regex-law"],
+        "require_nonzero": ["scan-monotonic", "duality", "negation", "decomposition", "alias", "monotonic", "negation:PASS/FAIL", "negation:FAIL/PASS", "regex-law", "negation-law-with-regex-matching-nothing"],
     }
 
 
@@ -114,21 +114,26 @@ def check_graph(ns, I, seed, res, mono_pairs):
     last_leaf = [n for n in ns if not any(m.startswith(n + ".") for m in ns)][-1]
     keep = [n for n in ns if n != last_leaf]
     decoy = build(keep, [(u, v) for u, v in I if u in keep and v in keep], seed) if len(keep) >= 2 else None
-    rx = [".*", _re.escape(ns[0]) + r"\..*"]
+    rx = [".*", _re.escape(ns[0]) + r"\..*", "zz_nomatch.*"]
     for a in cand:
         rx += ["^" + _re.escape(a) + "$", _re.escape(a)]
     for a in cand:
         for R in dict.fromkeys(rx):
             matches = [n for n in ns if _re.match(R, n)]
-            if not matches:
-                continue
+            neg = lambda o: {o[0], o[1]} == {"PASS", "FAIL"} or (o[0] == o[1] and o[0].startswith("ERR"))  # noqa: E731
             for sk in KINDS:
                 laws = [("duality", [sp(verb, True, False, sk, (a,), "regex", (R,)), sp(verb, False, False, "regex", (R,), sk, (a,))],
                          lambda o: o[0] == o[1]) for verb in ("should", "should_not")]
-                if len(matches) == 1:
+                if len(matches) <= 1:
+                    # one match: one subject and one object; no match: neither rule has a verdict, so 'should'
+                    # cannot pass while 'should not' does not fail (regex on the object and on the subject side)
                     for imp in (True, False):
-                        laws.append(("negation", [sp("should", imp, False, sk, (a,), "regex", (R,)), sp("should_not", imp, False, sk, (a,), "regex", (R,))],
-                                     lambda o: {o[0], o[1]} == {"PASS", "FAIL"} or (o[0] == o[1] and o[0].startswith("ERR"))))
+                        for exc in ((False,) if matches else (False, True)):
+                            laws.append(("negation", [sp("should", imp, exc, sk, (a,), "regex", (R,)), sp("should_not", imp, exc, sk, (a,), "regex", (R,))], neg))
+                            if not matches:
+                                laws.append(("negation", [sp("should", imp, exc, "regex", (R,), sk, (a,)), sp("should_not", imp, exc, "regex", (R,), sk, (a,))], neg))
+                                if res is not None:
+                                    res.stats["negation-law-with-regex-matching-nothing"] += 2
                 for name, specs, pred in laws:
                     o = [out(x, ev, seed, cache) for x in specs]
                     if decoy is not None and name == "duality":
